@@ -768,13 +768,15 @@ def run_case(case):
             return v
         m, e = math.frexp(v)
         return math.ldexp(round(m * (1 << bits)) / float(1 << bits), e)
+    # the node values themselves are compared bit for bit by the float replay; here: the zero-set (exact), the guards, and a
+    # few values on and off the axis
     pts = [(0.0, 0.0, 0.0), (0.0, 0.0, -0.0), (-0.0, 0.0, rnd(0.5 * L)), (0.0, 0.0, L), (0.0, 0.0, float(np.nextafter(L, 2 * L))), (0.0, 0.0, L * 1.25),
            (0.0, 0.0, -1e-300), (0.0, 0.0, -0.5), (case["sigma"], 0.0, 0.0), (rnd(0.3 * case["sigma"]), rnd(-0.4 * case["sigma"]), L)]
-    for zi in prng.sample(zs, min(3, len(zs))):
+    for zi in prng.sample(zs, min(1, len(zs))):
         pts.append((0.0, 0.0, float(zi)))
-    for _ in range(3):
+    for _ in range(1):
         pts.append((0.0, 0.0, min(rnd(prng.uniform(0, L)), L)))
-    for _ in range(4):
+    for _ in range(2):
         z = min(rnd(prng.uniform(0, L)), L)
         sx, sy = sig(z)
         pts.append((rnd(prng.uniform(-2.5, 2.5) * sx), rnd(prng.uniform(-2.5, 2.5) * sy), z))
@@ -818,8 +820,8 @@ def run_case(case):
     # SingleRayAttenuator.density called directly, on the axis: inside the beam, just inside / outside the
     # interpolator's extrapolation range (1e-9), far outside (ValueError expected -> recorded as -2)
     adens = []
-    for z in (rnd(0.5 * L), -0.9e-9, -1.1e-9 if L > 1e-6 else -2e-9, -1.0 * L, L + 0.9e-9 if L + 0.9e-9 > L else L,
-              L + max(1.1e-9, 4 * (float(np.nextafter(L, 2 * L)) - L)), 2.0 * L):
+    for z in (rnd(0.5 * L), -0.9e-9, -1.1e-9 if L > 1e-6 else -2e-9, L + 0.9e-9 if L + 0.9e-9 > L else L,
+              L + max(1.1e-9, 4 * (float(np.nextafter(L, 2 * L)) - L))):
         try:
             v = att.density(0.0, 0.0, z)
             v = -1.0 if v != v else float(v)
@@ -827,6 +829,33 @@ def run_case(case):
             v = -2.0
         adens.append((0.0, 0.0, float(z), v))
     out["adens"] = adens
+    # ---- data for the bit-exact replay of the attenuation loop (Model/C04_Float.v) ----
+    out["exact"] = None
+    if nsp and n_nodes >= 2 and first == first:
+        from scipy.integrate import cumulative_trapezoid
+        from raysect.core import Point3D
+        from cherab.core.utility import EvAmuToMS
+        zn = np.linspace(0.0, float(L), n_nodes)
+        dfn = [prof_fn(s["dens"]) for s in case["species"]]
+        terms, S = [], np.zeros(n_nodes)
+        for i in range(n_nodes):
+            p = Point3D(0.0, 0.0, zn[i]).transform(m)           # the point the attenuator samples (same raysect call)
+            row, acc = [], 0.0
+            for j, s in enumerate(case["species"]):
+                d = float(dfn[j](p.x, p.y, p.z))
+                row.append((d, float(s["charge"]), out["coef"][i * nsp + j]))
+                acc += (d * s["charge"]) * out["coef"][i * nsp + j]
+            terms.append(row)
+            S[i] = acc
+        spd = float(EvAmuToMS.to(float(case["energy"])))
+        with np.errstate(all="ignore"):
+            eargs = -cumulative_trapezoid(S, zn, initial=0) / spd
+            evals = np.exp(eargs)
+        ys = [float(att._density(float(zz))) for zz in zn[:-1]]
+        if np.all(np.isfinite(eargs)) and np.all(np.isfinite(S)) and all(y == y and abs(y) != float("inf") for y in ys):
+            out["exact"] = {"L": float(L), "n": n_nodes, "P": float(case["power"]), "E": float(case["energy"]), "m": out["mass"],
+                            "ec": k["ec"], "cf": k["cf"], "speed": spd, "terms": terms,
+                            "etab": [(float(a), float(v)) for a, v in zip(eargs, evals)], "ys": ys}
 
     # ---- oracle tables: libm values at the arguments the model is expected to ask for ----
     speed = math.sqrt(case["energy"] * k["cf"])
@@ -1016,7 +1045,7 @@ def _search_case(case, thorough=False):
     sx0, sy0 = sig(z0)
     x, y = 0.7 * sx0, -1.3 * sy0
     u0, v0 = x / sx0, y / sy0
-    nst = 200 if thorough else 60
+    nst = 600 if thorough else 300      # RK4: 60 steps left 7e-6 of integration error for sigma << length * tan (seed 3 false alarm)
     dz = (L - z0) / nst
 
     def slope(x, y, z):
@@ -1109,6 +1138,27 @@ def _search_extra(case, beam, plasma, info, sig):
             if not (pos[0] and not pos[-1] and pos == sorted(pos, reverse=True)):
                 fails.append(dict(info, claim="the density switches to zero exactly once within a few ulp of the clamp radius",
                                   z=z, xs=xs, positive=pos))
+
+    # (i) extreme clamp settings (clamp_sigma ** 2 under- / overflows): the zero-set clause must still hold.
+    #     1e-170 is accepted and stores a zero radius: zero everywhere off the axis, positive on it;
+    #     1e160 through the constructor stores +inf: nothing is clamped (the setter raises OverflowError instead: recorded
+    #     as the expected outcome of that route, not asserted)
+    if case["clamp"]:
+        alt = copy.deepcopy(flat(case))
+        alt["att_route"], alt["argforms"] = "constructor", False
+        z = 0.5 * L
+        sx, sy = sig(z)
+        alt["clamp_sigma"] = 1e-170
+        tiny = _fresh(alt)[0]
+        alt["clamp_sigma"] = 1e160
+        huge = _fresh(alt)[0]
+        alt["clamp"] = False
+        off = _fresh(alt)[0]
+        p_far = (3.0 * cs * sx, -2.0 * cs * sy, z)
+        got = [tiny.density(1e-3 * sx, 0.0, z), tiny.density(0.0, 0.0, z), huge.density(*p_far), off.density(*p_far), off.density(0.0, 0.0, z)]
+        if not (got[0] == 0.0 and got[1] == got[4] and got[2] == got[3]):
+            fails.append(dict(info, claim="extreme clamp_sigma (1e-170, 1e160): zero outside the clamp radius, unclamped inside",
+                              z=z, point_far=p_far, values=got))
 
     # (h) extreme magnitudes of z in the direction field (z*z under- or overflows in double precision)
     sg = case["sigma"]
